@@ -10,7 +10,9 @@ THEOREMS = ["Rva.meetOver_sound", "Rva.meet_sound_left", "Rva.meet_sound_right",
             "Rva.mathOpOf_spec", "Rva.scalarOpOf_spec", "Rva.rules_sound", "Rva.zeroConsts_sound",
             "Rva.ecall_table_matches_rars", "Rva.quiet_transfer_sound", "Rva.exec_sound", "Rva.goodFactsB_sound",
             "Rva.call_transfer_sound", "Rva.ecall_transfer_sound", "Rva.ecallKills_known",
-            "Rva.ecallKill_covers_rars", "Rva.entry_transfer_sound", "Rva.exec_sound_full"]
+            "Rva.ecallKill_covers_rars", "Rva.entry_transfer_sound", "Rva.exec_sound_full",
+            "Rva.mem_silent_sound", "Rva.mem_store_sound", "Rva.load_transfer_sound", "Rva.meetOver_memSound",
+            "Rva.exec_sound_mem", "Rva.goodMemFactsB_sound"]
 
 
 def oracle(src, blk, rng):
@@ -28,7 +30,7 @@ def oracle(src, blk, rng):
 
 
 def run(res, tier, seed):
-    proof_ok = proof_stage(res, "Rva.Proofs.C01Calls", THEOREMS, extra_modules=["Rva.Proofs.C01Path", "Rva.Proofs.C01Transfer", "Rva.Proofs.C01", "Rva.Proofs.C08", "Rva.Proofs.Tables"])
+    proof_ok = proof_stage(res, "Rva.Proofs.C01Mem", THEOREMS, extra_modules=["Rva.Proofs.C01Calls", "Rva.Proofs.C01Path", "Rva.Proofs.C01Transfer", "Rva.Proofs.C01", "Rva.Proofs.C08", "Rva.Proofs.Tables"])
     res.cov["rule"] = ("generated convention-respecting programs + corpus; 4 concrete RV32IM executions per "
                        "program from random initial states; every constant / address / entry-relative claim the "
                        "real analyzer attached to each reached node (registers and stack slots) is evaluated "
@@ -48,7 +50,8 @@ def run(res, tier, seed):
     bad_src = None
     for s, blk in zip(srcs, good):
         line = next((l for l in blk if l.startswith("GOODFACTS")), "")
-        if line.startswith("GOODFACTS true final-facts-are-these=true"):
+        memline = next((l for l in blk if l.startswith("GOODMEM")), "")
+        if line.startswith("GOODFACTS true final-facts-are-these=true") and memline == "GOODMEM true":
             tally["holds"] += 1
         elif " n/a " in line:
             tally["not_applicable"] += 1
@@ -57,6 +60,6 @@ def run(res, tier, seed):
             bad_src = bad_src or s
     res.cov.setdefault("input_distribution", {})["exec_sound_hypothesis"] = tally
     if bad_src is not None and first is None and corr is None:
-        corr = {"stage": "good (hypothesis GoodFacts of theorem exec_sound does not hold for the analysis "
+        corr = {"stage": "good (hypothesis GoodFactsM of theorems exec_sound_full / exec_sound_mem does not hold for the analysis "
                          "result)", "source": bad_src, "impl_vs_model": []}
     conclude(res, "C01", first, corr, proof_ok, "no false claim found")
